@@ -34,7 +34,47 @@ PARTIAL = [
     "captured; orthonormality of v is a solver contract; transform(None, 'NumInt') integrates the fit-centred training data, "
     "not `_data_inpro` (the proved NumInt = InnPro identity is checked on `_data_inpro`)",
 ]
-TRUSTED_EXTRA = []
+TRUSTED_EXTRA = [
+    "translator harness/c04_translate.py (Python `ast`, syntax only: numeric literals, `.T`, operand order of `@`, subscripts and slices, "
+    "keyword arguments, factors of a product in _fit_covariance_multivariate and the scaling expression of MFPCA.inverse_transform) -> "
+    "lean/FDAModel/Generated/MfpcaBlocks.lean; reference translation harness/c04_mfpcablocks_reference.lean used when the source shape is "
+    "not recognised",
+]
+
+# --------------------------------------------------------------------------
+# translator: bookkeeping of mfpca.py -> lean/FDAModel/Generated/MfpcaBlocks.lean
+# --------------------------------------------------------------------------
+import os  # noqa: E402
+
+import c04_translate  # noqa: E402
+import common  # noqa: E402
+
+GEN_FILE = os.path.join(common.LEAN_DIR, "FDAModel", "Generated", "MfpcaBlocks.lean")
+REFERENCE = os.path.join(os.path.dirname(os.path.abspath(__file__)), "c04_mfpcablocks_reference.lean")
+TRANSLATOR = dict(status="not run")
+
+
+def translate():
+    """Regenerate Generated/MfpcaBlocks.lean from what mfpca.py says now.  An unrecognised source shape is NOT an alarm:
+    the reference translation kept beside the translator is used (not what an earlier run left in Generated/), a note is
+    printed and put into the evidence; only a successful translation can break `C04.source_blocks`."""
+    path = os.path.join(common.REPO, "FDApy", "preprocessing", "dim_reduction", "mfpca.py")
+    try:
+        x = c04_translate.parse(path)
+        src = c04_translate.lean_source(x)
+        TRANSLATOR.clear()
+        TRANSLATOR.update(status="translated", **x)
+    except (ValueError, SyntaxError, IndexError, AttributeError, KeyError, TypeError) as e:
+        TRANSLATOR.clear()
+        TRANSLATOR.update(status="translator: source shape not recognised, tie rests on the correspondence only", detail=str(e)[:140])
+        print("note:", TRANSLATOR["status"], "(" + TRANSLATOR["detail"] + ")")
+        src = open(REFERENCE).read()
+    except OSError as e:
+        raise common.InfraError(f"translator: cannot read {path}: {e}")
+    if not os.path.exists(GEN_FILE) or open(GEN_FILE).read() != src:
+        os.makedirs(os.path.dirname(GEN_FILE), exist_ok=True)
+        with open(GEN_FILE, "w") as fh:
+            fh.write(src)
 
 
 # --------------------------------------------------------------------------
@@ -1170,4 +1210,6 @@ def extra_coverage(cases, impls, models):
         if m and "stats" in m:
             er = max(er, m["stats"].get("eig_residual", 0.0))
             cr = max(cr, m["stats"].get("chol_residual", 0.0))
-    return dict(max_contract_residual=dict(eigen_relative=er, cholesky_relative=cr))
+    return dict(max_contract_residual=dict(eigen_relative=er, cholesky_relative=cr),
+                translator=dict(TRANSLATOR, file="lean/FDAModel/Generated/MfpcaBlocks.lean",
+                                theorems="C04.source_blocks, C04.coded_block_range, C04.coded_blocks_tile, C04.coded_bookkeeping"))
